@@ -10,11 +10,12 @@ Open Scope N_scope.
            connkind 0 unknown / 1 fresh / 2 pending / 3 long-lived connection #who
            | [ 4 ; conn ; client ; ... ; observed ]   registry event: connection re-authenticates as client
            | [ 5 ; conn ; ... ; observed ]            registry event: connection leaves the registry
+           | [ 6 ; mapping ; ... ] record deleted | [ 7 ; mapping ; target side? ; client ; ... ] party rewritten | [ 8 ; mapping ; active? ; ... ]
    observed = [ ok ; maps([[id;l;t;sent;recv]..]) ; codes ; doms ; online ; dm ; dc ; dd ; deliv([[client;type;stamp]..]) ; bind ] *)
 
 Definition dec_map (v : tval) : mapping :=
   {| m_id := vn (vnth 0 v); m_listen := vn (vnth 1 v); m_target := vn (vnth 2 v); m_socks := vbool (vnth 3 v);
-     m_sent := vn (vnth 4 v); m_recv := vn (vnth 5 v) |}.
+     m_sent := vn (vnth 4 v); m_recv := vn (vnth 5 v); m_active := vbool (vnth 6 v) |}.
 Definition dec_code (v : tval) : code := {| c_id := vn (vnth 0 v); c_owner := vn (vnth 1 v); c_act := vn (vnth 2 v) |}.
 Definition dec_dom (v : tval) : domain := {| d_id := vn (vnth 0 v); d_owner := vn (vnth 1 v) |}.
 Definition lenN {A} (l : list A) : N := N.of_nat (length l).
@@ -25,7 +26,8 @@ Definition dec_world (v : tval) : world :=
   {| w_maps := ms; w_codes := cs; w_doms := ds; w_online := map vn (vl (vnth 3 v));
      w_bind := map (fun e => (vn (vnth 0 e), vn (vnth 1 e))) (vl (vnth 4 v));
      w_nm := lenN ms; w_nc := lenN cs; w_nd := lenN ds;
-     w_xnode := vbool (vnth 5 v); w_remote := map vn (vl (vnth 6 v)) |}.
+     w_xnode := vbool (vnth 5 v); w_remote := map vn (vl (vnth 6 v));
+     w_index := map (fun e => (vn (vnth 0 e), vn (vnth 1 e))) (vl (vnth 7 v)) |}.
 Definition dec_optn (v : tval) : option N := match vopt v with Some x => Some (vn x) | None => None end.
 Definition dec_kind (v who : tval) : connkind :=
   match vn v with 0 => KUnknown | 1 => KFresh | 2 => KPending | _ => KConn (vn who) end.
@@ -33,10 +35,10 @@ Definition dec_cmd (v : tval) : cmd :=
   {| k_type := vn (vnth 2 v); k_resp := vbool (vnth 3 v); k_obj := dec_optn (vnth 4 v); k_tgt := dec_optn (vnth 5 v);
      k_dir := vn (vnth 6 v); k_sent := vn (vnth 7 v); k_recv := vn (vnth 8 v); k_valid := vbool (vnth 9 v) |}.
 Definition dec_table (v : tval) : list row :=
-  table_of (vbool (vnth 0 v)) (vbool (vnth 1 v)) (vbool (vnth 2 v)) (vbool (vnth 3 v)) (vbool (vnth 4 v)).
+  table_of (vbool (vnth 0 v)) (vbool (vnth 1 v)) (vbool (vnth 2 v)) (vbool (vnth 3 v)) (vbool (vnth 4 v)) (vbool (vnth 5 v)).
 
 (* projections compared with the harness output *)
-Definition proj_map (m : mapping) : list N := [m_id m; m_listen m; m_target m; m_sent m; m_recv m].
+Definition proj_map (m : mapping) : list N := [m_id m; m_listen m; m_target m; m_sent m; m_recv m; if m_active m then 1 else 0].
 Definition proj_code (c : code) : list N := [c_id c; c_owner c; c_act c].
 Definition proj_dom (d : domain) : list N := [d_id d; d_owner d].
 Definition proj_deliv (x : cid * N * cid) : list N := let '(t, ty, s) := x in [t; ty; s].
@@ -59,6 +61,9 @@ Definition step_result (tbl : list row) (w : world) (s : tval) : result :=
   match vn (vnth 0 s) with
   | 4 => mk true (apply_event (EvReauth (vn (vnth 1 s)) (vn (vnth 2 s))) w)
   | 5 => mk true (apply_event (EvRemove (vn (vnth 1 s))) w)
+  | 6 => mk true (apply_event (EvDelMap (vn (vnth 1 s))) w)
+  | 7 => mk true (apply_event (EvSetParty (vn (vnth 1 s)) (vbool (vnth 2 s)) (vn (vnth 3 s))) w)
+  | 8 => mk true (apply_event (EvSetActive (vn (vnth 1 s)) (vbool (vnth 2 s))) w)
   | _ =>
       (* element 12 (optional): k > 0 = the k-th storage call made while the command was handled failed *)
       match vnat (vnth 12 s) with
